@@ -92,7 +92,8 @@ Proof.
   unfold step in Hs.
   destruct (t_pc (ts s t)) eqn:Hpc.
   - (* Idle *) destruct (t_todo (ts s t)) as [|o rest]; [discriminate|].
-    destruct (o_code o); injection Hs as <-; rframe HI t Hpc.
+    destruct (o_code o) as [|[|[|k]]]; injection Hs as <-; rframe HI t Hpc.
+  - (* SGate *) destruct (gate_open (open s) (t_gate (ts s t))); [|discriminate]. injection Hs as <-. rframe HI t Hpc.
   - (* SReg *) destruct (alookup Nat.eqb (t_key (ts s t)) (calls s)) as [c|] eqn:Hlk; injection Hs as <-.
     + rframe HI t Hpc.
     + pose proof HI as [M M' O F St Dn].
